@@ -32,10 +32,10 @@ ASSUMPTIONS = [
     "vertices must agree with it to 1e-12 relative (same library: observed difference is 0)",
     "there-and-back bound: 1e-6 CRS units (metres) for projected sources, 1e-9 degrees for geographic sources, inside "
     "the intersection of the pool's validity boxes (observed worst case 3e-8 m / 7e-14 deg)",
-    "edge-length bound is resolution*(1+1e-9) + 16 ulp(max |coordinate|): interpolated vertices are rounded to the "
-    "coordinate grid; on-edge distance bound is 1e-9*edge length + 8 ulp(max |coordinate|)",
+    "edge-length bound is resolution*(1+1e-9) + 32 ulp(max |coordinate|): interpolated vertices are rounded to the "
+    "coordinate grid (each ordinate off by <= ~2.5 ulp); on-edge distance bound is 1e-9*edge length + 16 ulp",
     "area is compared with exact integer arithmetic on the float coordinates (tolerance 1e-9 relative + "
-    "8 ulp * resolution per inserted vertex), length with fsum/hypot (1e-9 relative + 8 ulp per vertex)",
+    "16 ulp * min(resolution, diameter) per inserted vertex), length with fsum/hypot (1e-9 relative + 16 ulp per vertex)",
     "strictly advancing inserted vertices (no repeat of an original vertex) is demanded only on the lattice family "
     "where the length test of the implementation is exact; on the float family only monotone up to rounding",
     "polygons need not be valid (operations are vertex-wise); no empty geometries; resolution > 0; "
@@ -299,7 +299,7 @@ def check_chain(path, P, Q, res, exact, what="segmented"):
             require(k < len(Q), "%s %s: original vertex #%d %r not retained in order after vertex #%d (res=%r)", what, path, i, p2, i - 1, res)
         dx, dy = p2[0] - p1[0], p2[1] - p1[1]
         L = math.hypot(dx, dy)
-        tol = 1e-9 * L + 8 * u
+        tol = 1e-9 * L + 16 * u
         prev = 0.0
         for q in Q[j + 1 : k]:
             ax, ay = q[0] - p1[0], q[1] - p1[1]
@@ -316,7 +316,7 @@ def check_chain(path, P, Q, res, exact, what="segmented"):
             prev = s
         n_ins += k - j - 1
         j = k
-    lim = res * (1 + 1e-9) + 16 * u
+    lim = res * (1 + 1e-9) + 32 * u
     for a, b in zip(Q, Q[1:]):
         e = math.hypot(b[0] - a[0], b[1] - a[1])
         require(e <= lim, "%s %s: edge %r-%r has length %.17g > resolution %.17g", what, path, a, b, e, res)
@@ -339,7 +339,7 @@ def check_densified(G, got, res, exact, what="segmented"):
             require([tuple(v) for v in q] == [tuple(v) for v in p], "%s %s: point coordinates changed: %r -> %r", what, path, p[:3], q[:3])
             continue
         for a, b in zip(p, p[1:]):
-            if math.hypot(b[0] - a[0], b[1] - a[1]) > res * (1 + 1e-9) + 16 * u:
+            if math.hypot(b[0] - a[0], b[1] - a[1]) > res * (1 + 1e-9) + 32 * u:
                 long_edges += 1
         n_ins += check_chain(path, p, q, res, exact, what)
         nv += len(q) + len(p)
@@ -348,11 +348,11 @@ def check_densified(G, got, res, exact, what="segmented"):
             a_orig += sgn * abs(area2_exact(p))
             a_res += sgn * abs(area2_exact(q))
     # length / area of the whole geometry
-    tol_l = 1e-9 * Lsum + 8 * u * nv
+    tol_l = 1e-9 * Lsum + 16 * u * nv
     require(abs(l_res - Lsum) <= tol_l, "%s: length changed %.17g -> %.17g (tol %.3g)", what, Lsum, l_res, tol_l)
     A0, A1 = float(a_orig) / 2, float(a_res) / 2
     rcap = min(res, D) if D > 0 else 0.0
-    tol_a = 1e-9 * abs(A0) + 8 * u * rcap * n_ins
+    tol_a = 1e-9 * abs(A0) + 16 * u * rcap * n_ins
     require(abs(float(a_res - a_orig)) / 2 <= tol_a, "%s: area changed %.17g -> %.17g (tol %.3g)", what, A0, A1, tol_a)
     if long_edges:
         require(n_ins > 0, "%s: %d edges longer than resolution %r but nothing was added", what, long_edges, res)
@@ -876,7 +876,6 @@ def o_to_crs(case, T):
     g = _mk_geometry(G, case["src"])
     wkb0 = g.geom.wkb
     out = g.to_crs(mk_crs_spec(case["dst"]))
-    require(out is not g, "to_crs(%s -> %s) returned the input object", a, b)
     require(_crs_is(out.crs, b), "result crs is %r, expected %s", out.crs, b)
     require(out.geom_type == G[0], "geom_type %s, expected %s", out.geom_type, G[0])
     want = g_map(G, _chain_tr(a, b))
